@@ -3,12 +3,12 @@
     defined.  [run_tab t k dbg a] is the table lookup of Model/Api.v (Proofs/TotalityP.v).
     Side conditions ([glue2_tbl_ty]):
       "glue2.cmf_serde_de"    the MODULUS argument has LIMBS limbs (Rust's types);
-      "glue2.params_ct_eq_lz" the two parameter sets carry the same mod_leading_zeros.  WITHOUT it the key is refuted
-                              ([params_ct_eq_ignores_lz]): `ConstantTimeEq for MontyParams` does not compare
-                              mod_leading_zeros, the derived `PartialEq` ("glue2.params_eq_lz") does. *)
+      "glue2.params_ct_eq_lz" the two mod_leading_zeros arguments are u32 values (before the repair of finding F34 the
+                              key needed "same mod_leading_zeros": ConstantTimeEq for MontyParams did not compare
+                              that field, the derived `PartialEq` ("glue2.params_eq_lz") did). *)
 From CB Require Import Model.Limbs Model.AddSub Model.Cmp Model.Conv Model.Monty Model.Glue Model.Glue2
   Proofs.WordP Proofs.LimbsP Proofs.CmpP Proofs.ConvDigitsP Proofs.TotalityP Proofs.MontyFormP.
-From CB Require Proofs.ConvTablesP Proofs.BitsTablesP Proofs.CmpTablesP Proofs.MontyTablesP Proofs.GlueTablesP.
+From CB Require Proofs.ConvTablesP Proofs.BitsTablesP Proofs.CmpTablesP Proofs.MontyTablesP Proofs.GlueTablesP Proofs.BitsWordP Proofs.SqrtLimbsP.
 From Coq Require Import ZArith Lia List String Bool.
 Import ListNotations.
 Open Scope Z_scope.
@@ -16,11 +16,11 @@ Notation length := List.length.
 
 (* ------------------------------------------------------------------ typing side conditions (boolean) *)
 Definition ty_modulus_limbs (a : list (list Z)) : bool := (length (arg 2 a) =? g_n 1 a)%nat.
-Definition ty_same_lz (a : list (list Z)) : bool := sarg 1 a =? sarg 2 a.
+Definition ty_u32_lz (a : list (list Z)) : bool := (sarg 1 a <? 2 ^ 32) && (sarg 2 a <? 2 ^ 32).   (* mod_leading_zeros : u32 *)
 
 Open Scope string_scope.
 Definition glue2_tbl_ty : GlueTablesP.gtyping :=
-  [("glue2.cmf_serde_de", ty_modulus_limbs); ("glue2.params_ct_eq_lz", ty_same_lz)].
+  [("glue2.cmf_serde_de", ty_modulus_limbs); ("glue2.params_ct_eq_lz", ty_u32_lz)].
 Close Scope string_scope.
 
 Definition tbl_ok (k : string) : Prop :=
@@ -58,6 +58,30 @@ Proof.
   destruct H as [H1 H2]. apply MontyTablesP.odd_modulus_facts in H1, H2. apply Nat.eqb_eq in H3. tauto.
 Qed.
 
+(** subtle's u32::ct_eq on u32 values *)
+Lemma u32_ct_eq_spec a b : 0 <= a < 2 ^ 32 -> 0 <= b < 2 ^ 32 -> u32_ct_eq a b = b2z (a =? b).
+Proof.
+  intros Ha Hb. unfold u32_ct_eq. cbv zeta.
+  destruct (Z.eqb_spec a b) as [->|Hne].
+  - rewrite Z.lxor_nilpotent. reflexivity.
+  - set (x := Z.lxor a b).
+    assert (Hx : 0 <= x < 2 ^ 32) by (unfold x; apply BitsWordP.lxor_bound; lia).
+    assert (Hx0 : x <> 0) by (unfold x; intros E; apply Z.lxor_eq in E; contradiction).
+    assert (Hn : (- x) mod 2 ^ 32 = 2 ^ 32 - x).
+    { symmetry. apply (Z.mod_unique_pos _ _ (-1)); lia. }
+    rewrite Hn.
+    assert (Hl : 2 ^ 31 <= Z.lor x (2 ^ 32 - x) < 2 ^ 32).
+    { split.
+      - destruct (Z_lt_ge_dec x (2 ^ 31)).
+        + apply Z.le_trans with (2 ^ 32 - x); [lia|]. rewrite Z.lor_comm. apply SqrtLimbsP.lor_ge_l; lia.
+        + apply Z.le_trans with x; [lia|]. apply SqrtLimbsP.lor_ge_l; lia.
+      - apply BitsWordP.lor_bound; lia. }
+    replace (Z.lor x (2 ^ 32 - x) / 2 ^ 31) with 1; [reflexivity|].
+    apply (Z.div_unique _ (2 ^ 31) 1 (Z.lor x (2 ^ 32 - x) - 2 ^ 31)); lia.
+Qed.
+Lemma u32_ct_eq_refl a : u32_ct_eq a a = 1.
+Proof. unfold u32_ct_eq. cbv zeta. rewrite Z.lxor_nilpotent. reflexivity. Qed.
+
 (** ConstantTimeEq for MontyParams on the parameter sets the constructors build: truthy exactly when the documented
     parameters of the two moduli are all equal *)
 Lemma params_ct_eq_honest m1 m2 : wf m1 -> wf m2 -> g2sp_two_moduli m1 m2 = true ->
@@ -65,11 +89,11 @@ Lemma params_ct_eq_honest m1 m2 : wf m1 -> wf m2 -> g2sp_two_moduli m1 m2 = true
 Proof.
   intros W1 W2 H. destruct (two_moduli_facts m1 m2 H) as ((O1 & N1) & (O2 & N2) & L).
   destruct (params_fixed_correct m1 W1 N1 O1) as (E1 & _). destruct (params_fixed_correct m2 W2 N2 O2) as (E2 & _).
-  cbv zeta in E1, E2. rewrite E1, E2. clear E1 E2. unfold g2_params_ct_eq. cbn [mp_m mp_one mp_r2 mp_r3 mp_k].
+  cbv zeta in E1, E2. rewrite E1, E2. clear E1 E2. unfold g2_params_ct_eq. cbn [mp_m mp_one mp_r2 mp_r3 mp_k mp_lz].
   destruct (Z.eq_dec (eval m1) (eval m2)) as [E|NE].
   - assert (m1 = m2) by (apply eval_eq_iff; assumption). subst m2.
     rewrite !uint_ct_eq_refl by (assumption || apply wf_to_limbs).
-    rewrite limb_ct_eq_refl by apply spec_neg_inv_word. rewrite list_eqb_refl. reflexivity.
+    rewrite limb_ct_eq_refl by apply spec_neg_inv_word. rewrite u32_ct_eq_refl. rewrite list_eqb_refl. reflexivity.
   - rewrite (uint_ct_eq_spec m1 m2) by assumption.
     apply Z.eqb_neq in NE. rewrite NE. cbn [b2z]. rewrite !ch_and_0_l.
     unfold g2sp_fields. cbv zeta. cbn [list_eqb]. rewrite NE. reflexivity.
@@ -100,12 +124,14 @@ Qed.
 Lemma tbl_params_ct_eq_lz : tbl_ok "glue2.params_ct_eq_lz".
 Proof.
   start. cbv zeta. destruct (odd_modulus (arg 0 a)) eqn:D; cbn [negb] in *; [|contradiction Hdom; reflexivity].
-  unfold ty_same_lz in Hty. rewrite Hty.
+  unfold ty_u32_lz in Hty. apply andb_prop in Hty. destruct Hty as [H1 H2]. apply Z.ltb_lt in H1, H2.
   apply MontyTablesP.odd_modulus_facts in D. destruct D as [O N]. pose proof (wf_arg 0 a Hwf) as W.
   destruct (params_fixed_correct (arg 0 a) W N O) as (E & _). cbv zeta in E. rewrite E. clear E.
   unfold g2_params_ct_eq, g2_with_lz. cbn [mp_m mp_one mp_r2 mp_r3 mp_k mp_lz].
   rewrite !uint_ct_eq_refl by (assumption || apply wf_to_limbs).
-  rewrite limb_ct_eq_refl by apply spec_neg_inv_word. reflexivity.
+  rewrite limb_ct_eq_refl by apply spec_neg_inv_word.
+  pose proof (sarg_word 1 a Hwf) as S1. pose proof (sarg_word 2 a Hwf) as S2. unfold is_word in S1, S2.
+  rewrite u32_ct_eq_spec by lia. unfold vb, sp_bool, vbool. destruct (sarg 1 a =? sarg 2 a); reflexivity.
 Qed.
 
 Lemma tbl_params_eq_lz : tbl_ok "glue2.params_eq_lz".
@@ -174,13 +200,13 @@ Lemma glue2_key_set :
   map fst ops_glue2_spec = map fst ops_glue2_model /\ length (map fst ops_glue2_model) = 10%nat.
 Proof. split; reflexivity. Qed.
 
-(** The side condition of "glue2.params_ct_eq_lz" cannot be dropped: two parameter sets of the modulus 3 (one limb) that
-    agree in modulus, one, r2, r3, mod_neg_inv and differ in mod_leading_zeros (62, the value of the constructors,
-    and 61) are ct_eq (the model entry follows the code) although they are not equal; the derived `==` tells them apart. *)
-Lemma params_ct_eq_ignores_lz :
-  run_tab ops_glue2_model "glue2.params_ct_eq_lz" false [[3]; [62]; [61]] = Val [[1]] /\
+(** Since the repair of finding F34 (/repo d240cb2) `ConstantTimeEq for MontyParams` compares mod_leading_zeros too: two
+    parameter sets of the modulus 3 that differ only in that field (62 and 61) are neither ct_eq nor == *)
+Lemma params_ct_eq_sees_lz :
+  run_tab ops_glue2_model "glue2.params_ct_eq_lz" false [[3]; [62]; [61]] = Val [[0]] /\
   run_tab ops_glue2_spec "glue2.params_ct_eq_lz" false [[3]; [62]; [61]] = Val [[0]] /\
-  run_tab ops_glue2_model "glue2.params_eq_lz" false [[3]; [62]; [61]] = Val [[0]].
+  run_tab ops_glue2_model "glue2.params_eq_lz" false [[3]; [62]; [61]] = Val [[0]] /\
+  run_tab ops_glue2_model "glue2.params_ct_eq_lz" false [[3]; [62]; [62]] = Val [[1]].
 Proof. vm_compute. repeat split; reflexivity. Qed.
 
 (** The ConstMontyForm decoder is fail-closed at the modulus: at MODULUS = 5 (one limb) the payloads of 4, 5, 6 and
